@@ -1213,8 +1213,10 @@ where
 	C: NodeClient + 'a,
 	K: Keychain + 'a,
 {
-	// Refuse if TTL is expired
-	let last_confirmed_height = w.last_confirmed_height()?;
+	// Refuse if TTL is expired: measured against the highest chain height this wallet has
+	// observed, the confirmed height alone is kept per account
+	let last_confirmed_height =
+		std::cmp::max(w.last_confirmed_height()?, w.last_scanned_block()?.height);
 	if slate.ttl_cutoff_height != 0 {
 		if last_confirmed_height >= slate.ttl_cutoff_height {
 			return Err(Error::TransactionExpired);
